@@ -42,4 +42,31 @@ example : ∃ toks, lexAll (printType (.nonNull (.list (.list (.nonNull (.named 
     parseType { noLocation := true } toks = .ok (.nonNull (.list (.list (.nonNull (.named ⟨⟨[65], none⟩, none⟩) none) none) none) none) :=
   print_parse_type _ rfl _ (by decide) (by decide) (by decide)
 
+
+/-- `print_tokens_value`: for every value (all 9 kinds, nested lists and objects, variables) whose leaves are lexemes of
+    their class (`lexOkValue`: names and enum values `Name` lexemes, integers `IntValue` lexemes — the recognisers of
+    `Spec/Lexical.lean` —, quoted strings ARBITRARY code-point lists (`quoted_roundtrip` with a rest), floats and
+    depth-0 block strings one token by the string-level statement) and every indent configuration, the printed text
+    lexes to SOF, exactly the canonical yield of the value, EOF. -/
+theorem print_tokens_value (c : Cfg) (v : Value) (hl : lexOkValue c.indent v) :
+    ∃ toks, lexAll (printValue c v) = .ok (sofTok :: toks ++ [eofTok (printValue c v).length]) ∧
+      classes toks = yieldValue v := by
+  have := lexesTo_value c v hl [] [] safe_nil lexesTo_nil
+  simp only [List.append_nil] at this
+  exact lexAll_of_lexesTo this
+
+/-- `print_parse_value`: `parse_value(print(v), no_location=True) = v` for every such well-formed value (variables
+    allowed: `parse_value` parses `Value[~Const]`), under every flag combination with `no_location`. -/
+theorem print_parse_value (fl : Flags) (hnl : fl.noLocation = true) (c : Cfg) (v : Value)
+    (hl : lexOkValue c.indent v) (hn : noLocValue v = true) (hw : wfValue false v = true) :
+    ∃ toks, lexAll (printValue c v) = .ok toks ∧ parseValue fl toks = .ok v := by
+  obtain ⟨toks, h1, h2⟩ := print_tokens_value c v hl
+  refine ⟨_, h1, ?_⟩
+  apply C01.parseValue_complete fl _ v hw
+  show matchesAll fl _ _ = true
+  apply matchesAll_of_yield fl hnl
+  · simp [plainAll, plain, plain_valueV v hn]
+  · simp [classes, Item.yieldAll, Item.yield, cls_sof, cls_eof, yieldValue] at h2 ⊢
+    exact h2
+
 end PyGql.Props.C03
